@@ -712,7 +712,7 @@ def classify_event(prog, ev):
 def plan(tier, seed):
     n = 16 if tier == "quick" else 64
     return [
-        {"shard": i, "programs": 2 if tier == "quick" else 10, "max_cases": 50 if tier == "quick" else 300, "max_compile": 5 if tier == "quick" else 16, "timeout": 3000 if tier == "quick" else 9000}
+        {"shard": i, "programs": 2 if tier == "quick" else 10, "max_cases": 32 if tier == "quick" else 300, "max_compile": 5 if tier == "quick" else 16, "timeout": 3000 if tier == "quick" else 9000}
         for i in range(n)
     ]
 
